@@ -23,6 +23,29 @@ from common import canon_err, show_rat, show_ints, show_bool, close
 PROP = "C09"
 LEAN_MODULE = "SkVerif.Props.C09"
 OBLIGATIONS = [
+    "SkVerif.C09.agg_mean_spec",
+    "SkVerif.C09.agg_min_spec",
+    "SkVerif.C09.agg_max_spec",
+    "SkVerif.C09.agg_median_spec",
+    "SkVerif.C09.agg_online_spec",
+    "SkVerif.C09.ensemble_fit_members_fresh",
+    "SkVerif.C09.ensemble_update_members",
+    "SkVerif.C09.ensemble_predict_eq_aggregate",
+    "SkVerif.C09.ensemble_members_independent",
+    "SkVerif.C09.ensemble_eq_aggregate_of_members",
+    "SkVerif.C09.pipeline_fit_eq_spec",
+    "SkVerif.C09.pipeline_predict_eq_spec",
+    "SkVerif.C09.pipeline_inner_sees_only_transformed_partial",
+    "SkVerif.C09.pipeline_repaired_inner_sees_only_transformed",
+    "SkVerif.C09.pipeline_as_coded_violates_invariant",
+    "SkVerif.C09.multiplexer_selects_by_name",
+    "SkVerif.C09.multiplexer_bisim_selected",
+    "SkVerif.C09.multiplexer_passes_explicit_history_verbatim",
+    "SkVerif.C09.stack_meta_trained_on_holdout_only_partial",
+    "SkVerif.C09.stack_training_window_is_prefix",
+    "SkVerif.C09.stack_members_refit_on_all",
+    "SkVerif.C09.stack_predict_eq_regressor_of_members",
+    "SkVerif.C09.stack_insample_horizon_leaks",
 ]
 TRUSTED = ["hand-written model SkVerif/Model/Compose.lean of the four composites and of the _SktimeForecaster bookkeeping they call",
            "harness/recorders_C09.py (recording leaves; their Lean twins recF/recT/recG are part of the model)",
@@ -47,6 +70,11 @@ LEVEL_NOTE = ("Trusted: Lean kernel, axioms propext/Classical.choice/Quot.sound,
 TECHNIQUE = "Lean 4 proof (induction over member lists and call histories, simulation) + differential correspondence with recording inner estimators"
 
 AGGS = ["mean", "median", "min", "max", "online"]
+# "P" = the model of TransformedTargetForecaster.update as coded in /repo (raw batch handed on: known finding);
+# "Pf" = the model of the repaired update (findings/C09-pipeline-update-transformed.patch).  Switch the default
+# when the repair lands in /repo.  C09_MODEL_FIXED=1 is only for trying the patch in a scratch worktree.
+import os as _os
+_PIPE_TOKEN = "Pf" if _os.environ.get("C09_MODEL_FIXED") == "1" else "P"
 
 
 def is_exhaustive(tier):
@@ -175,7 +203,7 @@ def _node_str(n):
     if k == "E":
         return "E %s %d %s" % (n[1] if n[1] in AGGS else "bad", len(n[2]), " ".join("%s %s" % (nm, _node_str(ch)) for nm, ch in n[2]))
     if k == "P":
-        return "P %d %s %s" % (len(n[1]), " ".join("T %s %s %s %s %s" % (t[0], _num(t[1]), _num(t[2]), show_bool(t[3]), show_bool(t[4])) for t in n[1]),
+        return "%s %d %s %s" % (_PIPE_TOKEN, len(n[1]), " ".join("T %s %s %s %s %s" % (t[0], _num(t[1]), _num(t[2]), show_bool(t[3]), show_bool(t[4])) for t in n[1]),
                                _node_str(n[2]))
     if k == "M":
         return "M %s %d %s" % ("none" if n[1] is None else n[1], len(n[2]), " ".join("%s %s" % (nm, _node_str(ch)) for nm, ch in n[2]))
